@@ -123,12 +123,17 @@ pub struct WakeCfg {
     pub plan: Vec<Stall>,
     pub seed: u64,
     pub iter_consumer: bool,
+    /// the first consumer of every stream asks for one value more than will ever be sent: it must
+    /// stay blocked while senders are alive and report the end once the last one is gone
+    pub overhang: bool,
+    /// producers spin on the release flag so that their sender drops overlap
+    pub tight_release: bool,
 }
 
 impl WakeCfg {
     pub fn describe(&self) -> String {
         format!(
-            "wake {} cap={} wait={} P={} values={} streams(quotas)={:?} uni={:?} iter={} policy={} plan=[{}]",
+            "wake {} cap={} wait={} P={} values={} streams(quotas)={:?} uni={:?} iter={} overhang={} policy={} plan=[{}]",
             self.fl.name(),
             self.cap,
             self.wait.name(),
@@ -137,6 +142,7 @@ impl WakeCfg {
             self.streams,
             self.uni,
             self.iter_consumer,
+            self.overhang,
             self.policy.name(),
             self.plan.iter().map(|s| s.show()).collect::<Vec<_>>().join(", ")
         )
@@ -169,6 +175,7 @@ struct Shared {
     sent: AtomicU32,
     full_attempts: Vec<AtomicU64>,
     producer_done: Vec<AtomicBool>,
+    senders_dropped: AtomicU32,
 }
 
 pub fn gen_cfg(rng: &mut Rng, small: bool) -> WakeCfg {
@@ -177,7 +184,13 @@ pub fn gen_cfg(rng: &mut Rng, small: bool) -> WakeCfg {
     let wait = match rng.below(6) {
         0 => WaitKind::Busy,
         1 => WaitKind::Yield(50, 50),
-        2 => WaitKind::Yield(0, 1),
+        2 => {
+            if rng.chance(1, 2) {
+                WaitKind::Yield(0, 1)
+            } else {
+                WaitKind::Yield(rng.below(3) as usize, 0)
+            }
+        }
         3 => WaitKind::Block(50, 50),
         _ => WaitKind::Block(0, 0),
     };
@@ -238,6 +251,10 @@ pub fn gen_cfg(rng: &mut Rng, small: bool) -> WakeCfg {
                 roles,
                 nth: 1 + rng.below(4) as u32,
                 events: 5 + rng.below(60) as u32,
+                until: None,
+                gate: None,
+                cap_us: 200,
+                max_pauses: 0,
             });
         }
     }
@@ -248,11 +265,13 @@ pub fn gen_cfg(rng: &mut Rng, small: bool) -> WakeCfg {
         streams,
         uni,
         values,
-        producers: 1 + rng.below(2) as u32,
+        producers: 1 + rng.below(3) as u32,
         policy,
         plan,
         seed: rng.next(),
         iter_consumer: rng.chance(1, 6),
+        overhang: rng.chance(1, 2),
+        tight_release: rng.chance(1, 2),
     }
 }
 
@@ -314,7 +333,8 @@ pub fn run_once(cfg: &WakeCfg, shard: &mut Shard) -> (u64, bool, bool) {
             }
             hs.insert(0, head);
             for (ci, h) in hs.into_iter().enumerate() {
-                handles.push((si, qs[ci], h));
+                let extra = if cfg.overhang && ci == 0 { 1 } else { 0 };
+                handles.push((si, qs[ci] + extra, h));
             }
         }
     }
@@ -334,6 +354,7 @@ pub fn run_once(cfg: &WakeCfg, shard: &mut Shard) -> (u64, bool, bool) {
         sent: AtomicU32::new(0),
         full_attempts: (0..MAXT).map(|_| AtomicU64::new(0)).collect(),
         producer_done: (0..MAXT).map(|_| AtomicBool::new(false)).collect(),
+        senders_dropped: AtomicU32::new(0),
     });
     let mut joins = Vec::new();
     let np = cfg.producers;
@@ -341,6 +362,7 @@ pub fn run_once(cfg: &WakeCfg, shard: &mut Shard) -> (u64, bool, bool) {
     let mut extra = cfg.values % np;
     let mut tid = 1u32;
     let mut consumer_tids: Vec<(u32, usize, u32)> = Vec::new();
+    let mut consumer_pts: Vec<(u32, libc::pthread_t)> = Vec::new();
     for (si, quota, mut rx) in handles.drain(..) {
         let sh = shared.clone();
         let seed = rng.next();
@@ -349,7 +371,7 @@ pub fn run_once(cfg: &WakeCfg, shard: &mut Shard) -> (u64, bool, bool) {
         let my = tid;
         let use_iter = cfg.iter_consumer && my == 1;
         consumer_tids.push((my, si, quota));
-        joins.push(
+        let jh = 
             std::thread::Builder::new()
                 .name(format!("wake-c{}", my))
                 .spawn(move || {
@@ -389,8 +411,12 @@ pub fn run_once(cfg: &WakeCfg, shard: &mut Shard) -> (u64, bool, bool) {
                     sh.threads_done.fetch_add(1, SeqCst);
                     log
                 })
-                .expect("spawn"),
-        );
+                .expect("spawn");
+        {
+            use std::os::unix::thread::JoinHandleExt;
+            consumer_pts.push((my, jh.as_pthread_t()));
+        }
+        joins.push(jh);
         tid += 1;
     }
     let mut producer_tids: Vec<u32> = Vec::new();
@@ -402,6 +428,7 @@ pub fn run_once(cfg: &WakeCfg, shard: &mut Shard) -> (u64, bool, bool) {
         let plan = cfg.plan.clone();
         let my = tid;
         let count = per + if extra > 0 { 1 } else { 0 };
+        let tight = cfg.tight_release;
         if extra > 0 {
             extra -= 1;
         }
@@ -437,14 +464,23 @@ pub fn run_once(cfg: &WakeCfg, shard: &mut Shard) -> (u64, bool, bool) {
                     sh.producer_done[my as usize].store(true, SeqCst);
                     sh.producers_done.fetch_add(1, SeqCst);
                     // stay alive, idle, holding the sender
+                    let mut w = 0u64;
                     while !sh.release.load(SeqCst) {
+                        w += 1;
                         if cfg!(miri) {
                             std::thread::yield_now();
+                        } else if tight {
+                            // all senders leave at (nearly) the same instant
+                            std::hint::spin_loop();
+                            if w % 4096 == 0 {
+                                std::thread::yield_now();
+                            }
                         } else {
                             std::thread::sleep(Duration::from_micros(50));
                         }
                     }
                     tx.drop_tx(false);
+                    sh.senders_dropped.fetch_add(1, SeqCst);
                     let log = hist::take();
                     hooks::thread_end();
                     sh.threads_done.fetch_add(1, SeqCst);
@@ -457,17 +493,103 @@ pub fn run_once(cfg: &WakeCfg, shard: &mut Shard) -> (u64, bool, bool) {
     let nthreads = joins.len() as u32;
     shared.go.store(true, SeqCst);
 
-    // ---- wait for the frozen state and decide
+    // ---- decide on logical grounds
     let t0 = Instant::now();
     let watchdog = Duration::from_secs(if cfg!(miri) { 100_000 } else { 20 });
     let mut verdict = Verdict::Held;
-    let mut spins = 0u64;
     let snap = |tid: u32| -> (u64, u64, usize, usize, usize) {
         let s = &st.slots[tid as usize];
         let e1 = s.enters.load(SeqCst);
         let x = s.exits.load(SeqCst);
         (e1, x, s.seq.load(SeqCst), s.at.load(SeqCst), s.wc.load(SeqCst))
     };
+    // what one unfinished consumer is doing right now
+    #[derive(PartialEq)]
+    enum CS {
+        Running,
+        /// inside wait, wake predicate false: nothing but a new publish / the last sender drop can wake it
+        WaitFalse(String, String),
+        /// inside BlockingWait's condvar, predicate true, but no notification since it checked
+        LostNotify(String),
+        /// inside wait, predicate true: it is expected to return by itself
+        WaitTrue(String),
+    }
+    let classify = |c: &(u32, usize, u32)| -> CS {
+        let (e, x, seq, at, wc) = snap(c.0);
+        if e == x || at == 0 {
+            return CS::Running;
+        }
+        let atr = unsafe { &*(at as *const AtomicUsize) };
+        let wcr = unsafe { &*(wc as *const AtomicUsize) };
+        let chk = wait::check(seq, atr, wcr);
+        let tag = wait::load_tagless(atr);
+        let detail = format!(
+            "thread T{} (stream index {}, got {} of {}) is inside wait(seq={}, slot tag={}, writers={})",
+            c.0,
+            c.1,
+            shared.got[c.0 as usize].load(SeqCst),
+            c.2,
+            seq,
+            if tag == (usize::MAX >> 1) { "initial".to_string() } else { tag.to_string() },
+            wcr.load(SeqCst)
+        );
+        if !chk {
+            let mask = (n - 1) as usize;
+            let kind = if tag != (usize::MAX >> 1) && (tag & mask) != (seq & mask) { "wrong-slot" } else { "predicate-false" };
+            CS::WaitFalse(kind.to_string(), detail)
+        } else if is_blocking {
+            let t_chk = T_CHK[c.0 as usize].load(SeqCst);
+            let t_wok = T_WOKEN[c.0 as usize].load(SeqCst);
+            let t_not = T_NOTIFY.load(SeqCst);
+            if t_chk != 0 && t_wok < t_chk && t_not < t_chk {
+                CS::LostNotify(detail)
+            } else {
+                CS::WaitTrue(detail)
+            }
+        } else {
+            CS::WaitTrue(detail)
+        }
+    };
+    // own-CPU-time bound for a wait that keeps spinning although its predicate is true
+    let mut spin_watch: Vec<(u64, u64)> = vec![(u64::MAX, 0); MAXT]; // (wait entry number, cpu ns when first seen)
+    let mut spin_rule = |c: &(u32, usize, u32), detail: &str, phase: &str| -> bool {
+        if cfg!(miri) {
+            return false;
+        }
+        let pt = match consumer_pts.iter().find(|p| p.0 == c.0) {
+            Some(p) => p.1,
+            None => return false,
+        };
+        let e = st.slots[c.0 as usize].enters.load(SeqCst);
+        let cpu = match crate::solo::thread_cpu_ns(pt) {
+            Some(c) => c,
+            None => return false,
+        };
+        let w = &mut spin_watch[c.0 as usize];
+        if w.0 != e {
+            *w = (e, cpu);
+            return false;
+        }
+        if cpu - w.1 > 1_500_000_000 {
+            violation(
+                "C08",
+                "blocked-forever",
+                format!("blocked-forever:spins-although-predicate-true:{}", phase),
+                format!(
+                    "the wake condition of this consumer is true and nothing else is running, yet the same Wait::wait call has consumed more than 1.5 s of its own CPU time without returning: {}",
+                    detail
+                ),
+            );
+            return true;
+        }
+        false
+    };
+    let stream_outstanding = |si: usize| -> bool {
+        let consumed: u32 = consumer_tids.iter().filter(|c| c.1 == si).map(|c| shared.got[c.0 as usize].load(SeqCst)).sum();
+        consumed < shared.sent.load(SeqCst).min(cfg.values)
+    };
+    let mut spins = 0u64;
+    // ---- phase 1: senders alive
     loop {
         if t0.elapsed() > watchdog {
             verdict = Verdict::Inconclusive("consumers neither finished nor entered wait within the watchdog".into());
@@ -499,51 +621,29 @@ pub fn run_once(cfg: &WakeCfg, shard: &mut Shard) -> (u64, bool, bool) {
             break;
         }
         // every unfinished consumer must be provably stuck at the same instant
-        let mut stuck: Vec<(u32, String, String)> = Vec::new();
+        let mut stuck: Vec<(u32, usize, String, String)> = Vec::new();
         let mut all = true;
+        let mut spun = false;
         for c in &unfinished {
-            let (e, x, seq, at, wc) = snap(c.0);
-            if e == x || at == 0 {
-                all = false;
-                break;
-            }
-            let atr = unsafe { &*(at as *const AtomicUsize) };
-            let wcr = unsafe { &*(wc as *const AtomicUsize) };
-            let chk = wait::check(seq, atr, wcr);
-            let tag = wait::load_tagless(atr);
-            let detail = format!(
-                "thread T{} (stream index {}, got {} of {}) is inside wait(seq={}, slot tag={}, writers={})",
-                c.0,
-                c.1,
-                shared.got[c.0 as usize].load(SeqCst),
-                c.2,
-                seq,
-                if tag == (usize::MAX >> 1) { "initial".to_string() } else { tag.to_string() },
-                wcr.load(SeqCst)
-            );
-            if !chk {
-                let mask = (n - 1) as usize;
-                let kind = if tag != (usize::MAX >> 1) && (tag & mask) != (seq & mask) {
-                    "wrong-slot"
-                } else {
-                    "predicate-false"
-                };
-                stuck.push((c.0, kind.to_string(), detail));
-            } else if is_blocking {
-                // predicate true: is it asleep with nobody left to notify it?
-                let t_chk = T_CHK[c.0 as usize].load(SeqCst);
-                let t_wok = T_WOKEN[c.0 as usize].load(SeqCst);
-                let t_not = T_NOTIFY.load(SeqCst);
-                if t_chk != 0 && t_wok < t_chk && t_not < t_chk {
-                    stuck.push((c.0, "lost-notify".to_string(), detail));
-                } else {
+            match classify(c) {
+                CS::Running => {
                     all = false;
                     break;
                 }
-            } else {
-                all = false;
-                break;
+                CS::WaitFalse(kind, detail) => stuck.push((c.0, c.1, kind, detail)),
+                CS::LostNotify(detail) => stuck.push((c.0, c.1, "lost-notify".to_string(), detail)),
+                CS::WaitTrue(detail) => {
+                    all = false;
+                    if active_producers.is_empty() && spin_rule(c, &detail, "senders-alive") {
+                        spun = true;
+                    }
+                    break;
+                }
             }
+        }
+        if spun {
+            verdict = Verdict::Violated;
+            break;
         }
         if !all {
             continue;
@@ -588,7 +688,7 @@ pub fn run_once(cfg: &WakeCfg, shard: &mut Shard) -> (u64, bool, bool) {
             continue;
         }
         // lost-notify needs the predicate to still be un-notified
-        let still = stuck.iter().all(|(t, kind, _)| {
+        let still = stuck.iter().all(|(t, _, kind, _)| {
             if kind == "lost-notify" {
                 T_NOTIFY.load(SeqCst) < T_CHK[*t as usize].load(SeqCst)
                     && T_WOKEN[*t as usize].load(SeqCst) < T_CHK[*t as usize].load(SeqCst)
@@ -600,14 +700,24 @@ pub fn run_once(cfg: &WakeCfg, shard: &mut Shard) -> (u64, bool, bool) {
         if !still {
             continue;
         }
+        // Stable: nobody can change anything. Consumers whose stream has no value left are
+        // legitimately waiting (for the end of the stream); anybody else is stuck for good.
+        let really_stuck: Vec<&(u32, usize, String, String)> = stuck
+            .iter()
+            .filter(|(_, si, kind, _)| kind == "lost-notify" || stream_outstanding(*si) || !active_producers.is_empty())
+            .collect();
+        if really_stuck.is_empty() {
+            shard.stat("runs_with_consumers_left_waiting_for_the_end", 1);
+            break;
+        }
         let consumed: u32 = consumer_tids.iter().map(|c| shared.got[c.0 as usize].load(SeqCst)).sum();
-        for (_, kind, detail) in &stuck {
+        for (_, _, kind, detail) in really_stuck {
             violation(
                 "C08",
                 "blocked-forever",
                 format!("blocked-forever:{}", kind),
                 format!(
-                    "no send can complete any more ({} of {} values accepted, {} producer(s) still being refused with Full in a state nobody can change, {} deliveries so far) and every sender stays alive; every unfinished consumer is blocked and can never wake: {} [{}]",
+                    "no send can complete any more ({} of {} values accepted, {} producer(s) still being refused with Full in a state nobody can change, {} deliveries so far) and every sender stays alive; a consumer with a value outstanding on its stream is blocked and can never wake: {} [{}]",
                     shared.sent.load(SeqCst), cfg.values, active_producers.len(), consumed, detail, kind
                 ),
             );
@@ -615,18 +725,104 @@ pub fn run_once(cfg: &WakeCfg, shard: &mut Shard) -> (u64, bool, bool) {
         verdict = Verdict::Violated;
         break;
     }
-    // ---- rescue and join
+    // ---- phase 2: every sender handle is dropped (by its own thread, concurrently); whoever is
+    // still blocked must now see the end of the stream
     shared.release.store(true, SeqCst);
+    let t1 = Instant::now();
+    let mut phase2_done = matches!(verdict, Verdict::Violated | Verdict::Inconclusive(_));
+    while !phase2_done {
+        if t1.elapsed() > watchdog {
+            verdict = Verdict::Inconclusive("consumers did not return after every sender was dropped (watchdog)".into());
+            break;
+        }
+        std::thread::yield_now();
+        if !cfg!(miri) {
+            std::thread::sleep(Duration::from_micros(100));
+        }
+        if shared.senders_dropped.load(SeqCst) < np {
+            continue;
+        }
+        let unfinished: Vec<&(u32, usize, u32)> = consumer_tids
+            .iter()
+            .filter(|c| !shared.finished[c.0 as usize].load(SeqCst))
+            .collect();
+        if unfinished.is_empty() {
+            break;
+        }
+        let mut lost: Vec<(u32, String)> = Vec::new();
+        let mut all = true;
+        for c in &unfinished {
+            match classify(c) {
+                CS::LostNotify(detail) => lost.push((c.0, detail)),
+                CS::WaitFalse(_, detail) => {
+                    // writers == 0 makes the predicate true; a false one means the count is wrong
+                    lost.push((c.0, format!("predicate still false: {}", detail)));
+                }
+                CS::WaitTrue(detail) => {
+                    all = false;
+                    if spin_rule(c, &detail, "after-last-sender") {
+                        verdict = Verdict::Violated;
+                        phase2_done = true;
+                    }
+                    break;
+                }
+                CS::Running => {
+                    all = false;
+                    break;
+                }
+            }
+        }
+        if phase2_done {
+            break;
+        }
+        if !all {
+            continue;
+        }
+        let first: Vec<(u64, u64)> = unfinished.iter().map(|c| { let s = snap(c.0); (s.0, s.1) }).collect();
+        for _ in 0..50 {
+            std::thread::yield_now();
+        }
+        if !cfg!(miri) {
+            std::thread::sleep(Duration::from_millis(2));
+        }
+        let second: Vec<(u64, u64)> = unfinished.iter().map(|c| { let s = snap(c.0); (s.0, s.1) }).collect();
+        if first != second {
+            continue;
+        }
+        let still = unfinished.iter().all(|c| !matches!(classify(c), CS::Running | CS::WaitTrue(_)));
+        if !still {
+            continue;
+        }
+        for (_, detail) in &lost {
+            violation(
+                "C08,C07",
+                "blocked-forever",
+                "blocked-forever:after-last-sender-dropped".to_string(),
+                format!(
+                    "every sender handle has been dropped (all {} drops returned) but a consumer is still blocked and nobody is left to wake it: {}",
+                    np, detail
+                ),
+            );
+        }
+        verdict = Verdict::Violated;
+        break;
+    }
+    // ---- rescue and join
     if !cfg!(miri) {
-        let t1 = Instant::now();
+        let t2 = Instant::now();
         while shared.threads_done.load(SeqCst) < nthreads {
             std::thread::sleep(Duration::from_micros(200));
-            // explicit pokes: a notification may have been the thing that was lost
-            if t1.elapsed() > Duration::from_millis(50) {
+            // explicit pokes, only now that the verdict is in
+            if t2.elapsed() > Duration::from_millis(20) {
                 inner.notify();
             }
-            if t1.elapsed() > Duration::from_secs(20) {
+            if t2.elapsed() > Duration::from_secs(20) {
                 shard.inconclusive.push(format!("threads did not return even after every sender was dropped: {}", cfg.describe()));
+                let vs = payload::take_violations();
+                if !vs.is_empty() {
+                    let replay = J::obj().set("engine", J::s("wake")).set("cfg", J::s(cfg.describe())).set("run_seed", J::UInt(cfg.seed));
+                    shard.add_violations(vs, &replay);
+                }
                 hooks::thread_end();
                 STAMPS_ON.store(false, SeqCst);
                 multiqueue2::verif_hooks::set_callback(Some(hooks::callback));
